@@ -106,6 +106,9 @@ func main() {
 	// deterministic streams: restarted registers with stale raw content; Pow with a magic exponent (streams.go)
 	staleStream(emit)
 	powStream(emit)
+	// receiver = operand aliasing enumerated over every method x {generic, concrete} x alias pattern; in-place programs (alias.go)
+	aliasStream(emit)
+	inplaceStream(emit)
 	rng := NewRng(o.Seed)
 	for k := 0; k < o.N; k++ {
 		genProgram(rng.Split(), w, emit)
